@@ -1984,10 +1984,6 @@ class CxxParser:
                 return_type = self._parse_trailing_return_type(method.return_type)
                 method.has_trailing_return = True
                 method.return_type = return_type
-                if self.lex.token_if("{"):
-                    self._discard_contents("{", "}")
-                    method.has_body = True
-                break
             elif tok_value == "throw":
                 tok = self._next_token_must_be("(")
                 method.throw = self._create_value(self._consume_balanced_tokens(tok))
